@@ -128,6 +128,8 @@ def reflective(prop, tier, seed, oracle_module, level_note, extra_obligations=No
         else:
             failed.append(r['file'])
             problems.append('obligation %s fails: %s' % (r['file'], r['out'].strip()[-400:]))
+    prims = axioms & coqbuild.PRIMITIVES
+    axioms = axioms - coqbuild.PRIMITIVES
     bad_ax = axioms - coqbuild.ALLOWED_AXIOMS
     if bad_ax:
         problems.append('unexpected axioms: ' + ', '.join(sorted(bad_ax)))
@@ -160,7 +162,7 @@ def reflective(prop, tier, seed, oracle_module, level_note, extra_obligations=No
         obligations=len(ores), discharged=discharged, theorems=theorems or [],
         checker_cmd='tools/check.py %s --tier %s  (gen.py -> mkprops.py -> coqc of coq/gprops/%s_*.v against coq/theories)' % (prop, tier, prop),
         trusted_base=TRUSTED_BASE + [level_note],
-        axioms=sorted(axioms), programs=len(man.get('programs', {})),
+        axioms=sorted(axioms), primitive_float_operations=sorted(prims), programs=len(man.get('programs', {})),
         model_nodes=sum(v['nodes'] for v in man.get('programs', {}).values()),
         per_program=report,
         traces_validated_against_impl=corr.get('programs_validated', 0) if isinstance(corr, dict) else 0,
@@ -221,7 +223,7 @@ def check_C07(tier, seed):
                       'second row of the O(r^2) system under M (needs a cancellation between fX0 and fXc), *_untwisted under T, '
                       'Cartesian converters; thresholded root selection in r_singularity and iota2 under F are outside the theorem. '
                       'Newton/linear solves enter through their residual equations.',
-                      oracle_args=['--prop', 'C07'])
+                      oracle_args=['--prop', 'C07'], seq_obligations=['props/C07_lasym.v'])
 
 
 def check_C05(tier, seed):
@@ -309,7 +311,7 @@ def check_C09(tier, seed):
                       'equal Frobenius norm, the cylindrical Frobenius norm equals grad_B_colon_grad_B for an orthonormal frame, L_grad_B = B0*sqrt(2/||grad B||^2). '
                       'Hypotheses: admissibility (sG^2 = spsi^2 = 1, non-vanishing curvature/etabar/B0/...), the sigma equation holds at the returned solution, orthonormal frame (C03). '
                       'NOT proved: size of the discrete trace / curl defect (discretisation), min_L_grad_B (spectral-minimum oracle).',
-                      gprops=False, seq_obligations=['props/C09_spec.v', 'props/C09.v'], ncorr=(8 if tier == 'quick' else 48),
+                      gprops=False, seq_obligations=['props/C09_spec.v', 'props/C09.v', 'props/Pipeline_qsc.v'], ncorr=(8 if tier == 'quick' else 48),
                       theorems=['C09_trace_free_h0', 'C09_trace_free_hN', 'C09_curl_h0', 'C09_curl_hN', 'C09_contraction_h0', 'C09_contraction_hN', 'C09_magnitude',
                                 'C09_cartesian_rotated', 'C09_frobenius_cartesian', 'C09_frobenius_frenet', 'C09_scale_length'])
 
@@ -334,7 +336,7 @@ def check_C03(tier, seed):
                       '(every n) varphi[0] = 0, strictly increasing, closing one field period, from the recorded trapezoid recurrence; elongation^2 = s1^2/s2^2 (singular values) and >= 1. '
                       'Hypotheses: R0 > 0, non-vanishing curvature, the harmonic sums R0.. are the derivatives of each other (jets_consistent; term-by-term check by the harness). '
                       'NOT proved: quadrature error rate; min_R0 / max_elongation (spectral-minimum oracle).',
-                      gprops=False, seq_obligations=['props/C03_spec.v', 'props/C03.v'], ncorr=(8 if tier == 'quick' else 48),
+                      gprops=False, seq_obligations=['props/C03_spec.v', 'props/C03.v', 'props/Pipeline_qsc.v'], ncorr=(8 if tier == 'quick' else 48),
                       theorems=['C03_T1', 'C03_frenet_serret', 'C03_T3', 'C03_varphi', 'C03_elongation_h0', 'C03_elongation_hN'])
 
 
@@ -385,13 +387,54 @@ def check_C12(tier, seed):
                                 'RootSelect.rsing_min_le', 'RootSelect.quadratic_candidate_exact', 'RootSelect.linear_candidate_exact'])
 
 
+def check_C06(tier, seed):
+    return reflective('C06', tier, seed, 'oracle_C06',
+                      'Proved by the reflective Replicate checker (theories/Replicate.v, sound for every base grid n, every replication factor k >= 1 and every input) on every covered output '
+                      '(tables/rep_cover.json) of every translated physics stage: re-declaring nfp -> nfp/k on a k times longer grid replicates every profile k times, multiplies grid sums and helicity by k '
+                      'and leaves iota, iotaN = iota + helicity*nfp and all scale lengths / Mercier / tensor quantities unchanged; the residual equations of the sigma and O(r^2) solves are preserved. '
+                      'PREMISE (not proved): the differentiation matrix of the long grid applied to a replicated profile is the replication of the short-grid derivative (cosecant partial-fraction identity; '
+                      'checked numerically by the harness for n <= 201, k odd), and fourier_minimum sees the same interpolant. Not covered: quantities built from phi / varphi (untwisted coefficients on helical axes, '
+                      'Cartesian components, B_mag at a given angle), the sigma pin, iota2; k even (grids do not coincide); Newton uniqueness.',
+                      ncorr=(5 if tier == 'quick' else 20))
+
+
+def check_C14(tier, seed):
+    return reflective('C14', tier, seed, 'oracle_C14',
+                      'Proved on the programs regenerated from Frenet_to_cylindrical.py (all order variants): the residual handed to the root finder and the final converter evaluate the SAME point r0 + X n + Y b (+ Z t) in '
+                      'Cartesian components from the same spline values, the returned R is its cylindrical radius, Z its height, and the residual is atan2 of exactly that point minus the target; the series X, Y, Z assembled '
+                      'at a poloidal angle by Frenet_to_cylindrical and by to_RZ are the prescribed r, r^2, r^3 harmonics of the untwisted coefficients and coincide. With the oracle premise "root_scalar returns a zero of the residual" '
+                      'this is the clause "each returned (R,Z) is the position at phi0 whose own cylindrical angle is the target". Harness only: the 1e-12 / 1e-5 / nphi^-3 accuracy clauses, the to_Fourier round trip '
+                      '(props/C14_fourier.v when present), agreement with the shipped Fortran files.',
+                      gprops=False, seq_obligations=['props/C14.v'],
+                      theorems=['C14_point_r1', 'C14_point_r2', 'C14_point_R_r1', 'C14_point_R_r2', 'C14_residual_r1', 'C14_residual_r2',
+                                'C14_series_F_r1', 'C14_series_F_r2', 'C14_series_F_r3', 'C14_series_T_r1', 'C14_series_T_r2', 'C14_series_T_r3'])
+
+
+def check_C15(tier, seed):
+    return reflective('C15', tier, seed, 'oracle_C15',
+                      'Proved on the program regenerated from the scalar part of to_vmec: PHIEDGE = pi r^2 B0 (given spsi^2 = 1, Bbar from init_axis), CURTOR = 2 pi I2 r^2/mu0, AM = [-p2 r^2, p2 r^2] i.e. p(s) = -p2 r^2 (1-s). '
+                      'Everything else is translation-validation level: the written file is parsed back with an independent namelist reader and compared with the object and the surface on every run '
+                      '(NFP, LASYM, MPOL, NTOR cap, mode lines with VMEC\'s m*theta - n*nfp*phi convention, axis arrays to 8 digits, coefficient arrays left on the object, no state leaking through the mutable default argument).',
+                      gprops=False, seq_obligations=['props/C15.v'], theorems=['C15_phiedge', 'C15_curtor', 'C15_pressure'])
+
+
+def check_C18(tier, seed):
+    return reflective('C18', tier, seed, 'oracle_C18',
+                      'Proved: requesting an even nphi builds exactly the object of nphi + 1 (the constructor rule `if np.mod(nphi, 2) == 0: nphi += 1` is extracted from the current source by gen_obj.py and pinned; '
+                      'everything computed is a function of the stored parameters: ObjModel). The convergence clauses (spectral decay of solved profiles, second-order convergence of grid extrema and of the trapezoid Boozer angle) '
+                      'are statements of numerical analysis about the exact solution of a nonlinear periodic ODE; they are exercised by the harness on resolution ladders gated by measured spectral tails and are NOT proved.',
+                      gprops=False, extra_obligations=['gprops/C16_layout.v'], seq_obligations=['props/C18.v'],
+                      pre_cmds=[[PY, os.path.join(HERE, 'gen_obj.py'), '--repo', REPO]],
+                      theorems=['C18_even_is_next_odd', 'C18_always_odd', 'C18_same_object'])
+
+
 # hand-written theories each check depends on (others are not built, so work in progress elsewhere cannot disturb it)
 NEEDS = {
     'C08': ['Expr', 'Equiv', 'Dim'], 'C07': ['Expr', 'Equiv', 'Sign'], 'C05': ['Expr', 'Equiv', 'Shift'],
-    'C04': ['Expr', 'Shallow'], 'C11': ['Expr', 'Shallow'], 'C13': ['Expr', 'Shallow', 'Quadrant'], 'C19': ['Expr', 'Equiv', 'Dim', 'Sign'], 'C17': ['Expr', 'Effects'], 'C12': ['Expr', 'Equiv', 'Dim', 'Sign', 'Shallow', 'RootSelect'], 'C16': ['Expr', 'Effects', 'ObjModel'], 'C09': ['Expr', 'Shallow'], 'C03': ['Expr', 'Shallow'], 'C10': ['Expr', 'Shallow'], 'C01': ['Expr', 'Shallow', 'Series'], 'C02': ['Expr', 'Shallow', 'Newton'],
+    'C04': ['Expr', 'Shallow'], 'C11': ['Expr', 'Shallow'], 'C13': ['Expr', 'Shallow', 'Quadrant'], 'C19': ['Expr', 'Equiv', 'Dim', 'Sign'], 'C17': ['Expr', 'Effects'], 'C12': ['Expr', 'Equiv', 'Dim', 'Sign', 'Shallow', 'RootSelect'], 'C16': ['Expr', 'Effects', 'ObjModel'], 'C09': ['Expr', 'Shallow', 'Pipeline'], 'C03': ['Expr', 'Shallow', 'Pipeline'], 'C06': ['Expr', 'Equiv', 'Replicate'], 'C14': ['Expr', 'Shallow'], 'C15': ['Expr', 'Shallow'], 'C18': ['Expr', 'ObjModel'], 'C10': ['Expr', 'Shallow'], 'C01': ['Expr', 'Shallow', 'Series'], 'C02': ['Expr', 'Shallow', 'Newton'],
     'C20': ['Expr', 'Equiv', 'Sign', 'Shift', 'DiffMat', 'Newton', 'Bracket'],
 }
-CHECKS = {'C12': check_C12, 'C16': check_C16, 'C17': check_C17, 'C03': check_C03, 'C19': check_C19, 'C09': check_C09, 'C13': check_C13, 'C11': check_C11, 'C02': check_C02, 'C20': check_C20, 'C04': check_C04, 'C08': check_C08, 'C07': check_C07, 'C05': check_C05}
+CHECKS = {'C06': check_C06, 'C14': check_C14, 'C15': check_C15, 'C18': check_C18, 'C12': check_C12, 'C16': check_C16, 'C17': check_C17, 'C03': check_C03, 'C19': check_C19, 'C09': check_C09, 'C13': check_C13, 'C11': check_C11, 'C02': check_C02, 'C20': check_C20, 'C04': check_C04, 'C08': check_C08, 'C07': check_C07, 'C05': check_C05}
 
 
 def main():
@@ -403,7 +446,7 @@ def main():
     seed = int(os.environ.get('VERIF_SEED', '20240930'))
     if a.replay:
         rep = json.load(open(a.replay))
-        mod = {'C08': 'oracle_C08', 'C07': 'oracle_sym', 'C05': 'oracle_sym', 'C04': 'oracle_C04', 'C02': 'oracle_C02', 'C20': 'kernels', 'C11': 'oracle_C11', 'C13': 'oracle_C13', 'C09': 'oracle_C09', 'C19': 'oracle_C19', 'C03': 'oracle_C03', 'C17': 'oracle_C17', 'C16': 'oracle_C16', 'C12': 'oracle_C12'}.get(a.prop)
+        mod = {'C08': 'oracle_C08', 'C07': 'oracle_sym', 'C05': 'oracle_sym', 'C04': 'oracle_C04', 'C02': 'oracle_C02', 'C20': 'kernels', 'C11': 'oracle_C11', 'C13': 'oracle_C13', 'C09': 'oracle_C09', 'C19': 'oracle_C19', 'C03': 'oracle_C03', 'C17': 'oracle_C17', 'C16': 'oracle_C16', 'C12': 'oracle_C12', 'C06': 'oracle_C06', 'C14': 'oracle_C14', 'C15': 'oracle_C15', 'C18': 'oracle_C18'}.get(a.prop)
         res = harness(mod, (['--prop', a.prop] if mod == 'oracle_sym' else []) + ['--mode', 'replay', '--file', a.replay])
         print(json.dumps(res, indent=1))
         return 1 if res.get('violations') else 0
